@@ -398,7 +398,13 @@ def _c08(ctx):
     from .rules import licrules
     m7, nf7, nc7 = licrules.rule_M7(ctx)
     m7.floor('mask-gated placeholders in the solvers the polygon calls', nc7, 3)
-    return [p1, poly.rule_P2(ctx), poly.rule_P3(ctx), poly.rule_P4(ctx), poly.rule_P5(ctx), m7]
+    from .rules import areareduce, conserve
+    area, ncase, npth = areareduce.rule_AREA(ctx)
+    area.floor('crossings x reverse x sign cases', ncase, 20)
+    area.floor('paths', npth, 60)
+    cons, nk, ncp = conserve.rule_CONS(ctx)
+    cons.floor('kernels (Math::sum, Accumulator)', nk, 8)
+    return [p1, poly.rule_P2(ctx), poly.rule_P3(ctx), poly.rule_P4(ctx), poly.rule_P5(ctx), m7, area, cons]
 
 
 def _c17(ctx):
